@@ -181,7 +181,7 @@ func judgeHistories(c *lib.Ctx, dir, name string, hs [][]hevent, metas []hmeta) 
 		e := &hs[0][20]
 		e.AllIt[0] = append([]rn{{5, 1}}, e.AllIt[0]...)
 	}
-	bad, err := lib.JudgeGroups(c, name, dir, "TracePVector", hs, 5, 12*time.Minute)
+	bad, err := lib.JudgeGroups(c, name, dir, "TracePVector", hs, 4, 12*time.Minute)
 	if err != nil {
 		return err
 	}
